@@ -463,8 +463,68 @@ NUMBER_BAD += [x for x in _exponent_underscore_forms() if x not in NUMBER_BAD]
 CONTEXTS = ["x = %s\n", "f(%s)\n", "if a:\n    y = [%s]\n", "class C:\n  def m(self): return (%s)\n", "é = (%s,)\n"]
 
 
-def enumerated(rng):
+def _cmp_strict(a, b):
+    """The crate's documented comparison of two indentation levels (tabs, spaces): an order only if tabs and spaces do not
+    pull in opposite directions, otherwise the tab size would decide: 'tab'."""
+    if a[0] < b[0]:
+        return -1 if a[1] <= b[1] else "tab"
+    if a[0] > b[0]:
+        return 1 if a[1] >= b[1] else "tab"
+    return (a[1] > b[1]) - (a[1] < b[1])
+
+
+def ladder_outcome(levels):
+    """First indentation error of a ladder of lines with these leading-whitespace strings (tabs, then spaces), by the rule
+    the lexer states for itself: every level an indentation is compared with must be comparable without knowing the tab
+    size (else: tab error), and a dedent must arrive exactly at an open level (else: indentation error).
+    Returns (line index, 'tab' | 'dedent') or None."""
+    stack = [(0, 0)]
+    for i, w in enumerate(levels):
+        lv = (w.count("\t"), w.count(" "))
+        c = _cmp_strict(lv, stack[-1])
+        if c == "tab":
+            return i, "tab"
+        if c > 0:
+            stack.append(lv)
+        elif c < 0:
+            while True:
+                c = _cmp_strict(lv, stack[-1])
+                if c == "tab":
+                    return i, "tab"
+                if c < 0:
+                    stack.pop()
+                elif c == 0:
+                    break
+                else:
+                    return i, "dedent"
+    return None
+
+
+def indentation_ladders():
+    """Nested blocks whose levels mix tabs and spaces, then one line that dedents: over one level, over several, to a level
+    that is open, that never was, or that is only comparable with some of the open ones."""
     out = []
+    levels = ["\t", "        ", "    ", "\t    ", "\t        ", "\t\t", "  ", "\t  ", "                ", "\t\t  "]
+    for l1 in levels:
+        for l2 in levels:
+            for l3 in [None] + levels:
+                for d in levels + [""]:
+                    ws = [""] + [l1, l2] + ([l3] if l3 else []) + [d]
+                    lines = ["if a:", l1 + "if b:", l2 + ("if c:" if l3 else "x")] + ([l3 + "x"] if l3 else []) + [d + "y"]
+                    o = ladder_outcome(ws)
+                    if o is None:
+                        continue
+                    i, what = o
+                    if any(_cmp_strict((ws[k].count("\t"), ws[k].count(" ")), (ws[k - 1].count("\t"), ws[k - 1].count(" "))) != 1 for k in range(1, min(i, len(ws) - 1))):
+                        continue   # an earlier line does not open its block: the parser's complaint about that comes first
+                    start = sum(len(x) + 1 for x in lines[:i])
+                    out.append(Site("tab-space-ambiguity" if what == "tab" else "dedent-unknown-level", "\n".join(lines) + "\n", (start, start + len(lines[i]) + 1),
+                                    note="ladder " + "/".join(repr(x)[1:-1] for x in ws[1:])))
+    return out
+
+
+def enumerated(rng):
+    out = indentation_ladders()
     for lit, kind in FSTRING_BAD:
         for c in CONTEXTS:
             i = c.index("%s")
